@@ -1109,6 +1109,10 @@ def oracle_c11(an):
         return out
     f0 = faults[0]
     fseq = f0['seq']
+    mark = next((e for e in an.h if e['k'] == 'mark' and e.get('what') == 'settled'), None)
+    if mark is None or f0['t'] > mark['t'] - 0.5 * an.plan.get('settle', 4.0):
+        an.world.probe('fault_after_workload')  # no settle window left after it: nothing to judge
+        return out
     cause = f0['what'] + ('_' + f0['mode'] if f0.get('mode') else '')
     framing = an.plan.get('framing', 'tcp')
     allsub = defaultdict(list)
@@ -1165,7 +1169,7 @@ def oracle_c11(an):
                     continue
                 after = [e for e in prod if e['cb'] in ('cancel', 'on_cancel', 'complete', 'error', 'on_complete', 'exhausted',
                                                         'error_signal') and fseq < e['seq'] < settled]
-                if not after:
+                if not after and not _emitted_all_flagged_role(an, iid, role, prod, settled):
                     V('producer_not_cancelled', '%s %d: %s publisher (%s) still subscribed and not cancelled after the loss (%s)'
                       % (kind, iid, role, script.get('src'), cause), None, role=role, src=script.get('src'), **facts)
     # (3) close notification exactly once per endpoint
@@ -1181,8 +1185,10 @@ def oracle_c11(an):
         # (4) silence after the close completed
         if observed:
             c = observed[0]
-            late = [e for e in an.by_kind['enq'] + an.by_kind['tx'] if e['ep'] == ep and e['seq'] > c['seq']
-                    and e['t'] > c['t'] + 0.002 and e['seq'] < settled]
+            # frames handed to the transport, and frames the library itself originates (keepalives);
+            # a frame queued by an application call made after the close is not "the endpoint sending"
+            late = [e for e in an.by_kind['tx'] + [x for x in an.by_kind['enq'] if x['f']['type'] == 'KEEPALIVE']
+                    if e['ep'] == ep and e['seq'] > c['seq'] and e['t'] > c['t'] + 0.002 and e['seq'] < settled]
             if late:
                 V('sends_after_close', '%s queued/wrote %d frame(s) (first: %s) after its close notification'
                   % (ep, len(late), late[0]['f']['type']), late[0]['seq'], type=late[0]['f']['type'], **facts)
